@@ -197,6 +197,7 @@ class SpaceImpl:
         m = L()
         mesa, ms, nx = m["mesa"], m["ms"], m["nx"]
         self.fam, self.w, self.h = fam, w, h
+        self.off = (0, 0)
         self.model = mesa.Model(seed=1)
         rnd = self.model.random
         self.labels, self.sites, self.layout = [], [], None
@@ -227,7 +228,11 @@ class SpaceImpl:
             self.sites = [tuple(extra[i : i + 2]) for i in range(0, len(extra), 2)]
             sp = m["VoronoiGrid"]([list(s) for s in self.sites], random=rnd)
         elif fam == "cs":
-            sp = ms.ContinuousSpace(w, h, False)
+            # an origin other than (0, 0): positions cross the protocol relative to it (the model does not know it), the
+            # real space lies at [x0, x0 + w) x [y0, y0 + h)
+            if extra:
+                self.off = (extra[0], extra[1])
+            sp = ms.ContinuousSpace(w + self.off[0], h + self.off[1], False, x_min=self.off[0], y_min=self.off[1])
         elif fam == "xcs":
             sp = m["XCS"]([[0, w], [0, h]], torus=False, random=rnd)
         else:
@@ -283,7 +288,9 @@ class SpaceImpl:
             else:
                 ag = self.agents.get(vid) or m["mesa"].Agent(self.model)
                 ag.vid = vid
-                sp.place_agent(ag, x if fam == "netgrid" else (x, y))
+                if fam == "cs" and not (0 <= x < self.w and 0 <= y < self.h):
+                    return "err Invalid"
+                sp.place_agent(ag, x if fam == "netgrid" else (x + self.off[0], y + self.off[1]))
         except Exception:
             return "err Invalid"
         self.agents[vid] = ag
@@ -305,7 +312,7 @@ class SpaceImpl:
             else:
                 if fam == "cs" and not (0 <= x < self.w and 0 <= y < self.h):
                     return "err Invalid"
-                sp.move_agent(ag, x if fam == "netgrid" else (x, y))
+                sp.move_agent(ag, x if fam == "netgrid" else (x + self.off[0], y + self.off[1]))
         except Exception:
             return "err Invalid"
         self.where[vid] = (x, y)
@@ -333,7 +340,7 @@ class SpaceImpl:
         a = np.asarray(loc)
         if a.ndim == 0:
             return f"{to_tok('', a)},0"
-        return f"{to_tok('', a[0])},{to_tok('', a[1])}"
+        return f"{to_tok('', a[0] - self.off[0])},{to_tok('', a[1] - self.off[1])}"
 
     def collect(self, defaults=None):
         m = L()
@@ -396,6 +403,7 @@ class SpaceImpl:
             return f"{hits[0]},0" if len(hits) == 1 else "?,?"
         if fam in HEXES:
             x, y = x / (SQ3 / 2), y / 0.5
+        x, y = x - self.off[0], y - self.off[1]
         rx, ry = round(x), round(y)
         if abs(x - rx) > 1e-6 or abs(y - ry) > 1e-6:
             return "?,?"
@@ -508,6 +516,8 @@ class SpaceImpl:
                 self.trace.append(("altair", snap, None, exc_tok(e) + ": " + str(e)[:80], self.heap_before, self.heap_now()))
                 return exc_tok(e)
         rows = d["data"]["values"]
+        if self.off != (0, 0):
+            rows = [{**r, "x": r["x"] - self.off[0], "y": r["y"] - self.off[1]} if "x" in r and "y" in r else r for r in rows]
         if default:
             rows = [{**r, "id": uid.get(r.get("id"), "?")} for r in rows]
         encoding = d.get("encoding", {})
@@ -1370,6 +1380,8 @@ def gen_space(R, tier):
         cells = list(pts)
     elif fam in GRIDS:
         cells = [(x, y) for x in range(w) for y in range(h)]
+    if fam == "cs" and R.random() < 0.5:
+        extra = [R.randint(-3, 3), R.randint(-3, 3)]  # x_min, y_min: the width is x_max - x_min, not x_max
     lines = [" ".join(["scenario", "space", fam, str(w), str(h), *map(str, extra)])]
 
     policy = {}
@@ -1877,6 +1889,15 @@ def oracle_ctrl(tr):
                     bad.append("ctrl-loop-end: the play loop ended while playing and running")
                 plain = all(t == "-" for t in arg)
                 stop = before["kwargs"].get("stop")
+                # a click on pause during the j-th step of a tick (undisturbed ticks before it, the model running up to
+                # there): the tick ends right after that step, and so does the loop
+                hk = next((i for i, t in enumerate(arg) if "@" in t), None)
+                if hk is not None and all(t == "-" for t in arg[:hk]) and arg[hk].startswith("-@") and f["gen"] == before["gen"]:
+                    j, r, s0 = int(arg[hk].split("@")[1]), before["render"], before["steps"]
+                    end = s0 + r * hk + j
+                    if j <= r and (stop is None or end <= stop) and (f["steps"], f["playing"]) != (end, False):
+                        bad.append(f"ctrl-pause-during-step: pause clicked during step {j} of tick {hk + 1} (render interval {r}, from step {s0}): "
+                                   f"the loop ended at step {f['steps']} with playing={f['playing']}, expected step {end}, paused")
                 if plain and f["gen"] == before["gen"]:
                     r, s0, n = before["render"], before["steps"], len(arg)
                     need = None if stop is None or stop <= s0 else -(-(int(stop) - s0) // r)
